@@ -320,6 +320,17 @@ fn one_case(cfg: &Cfg, grp: &str, case: u64, rng: &mut Rng, rep: &mut Report, sc
                 Msg::Real(v) => Want::Real((0..n).map(|j| if j == 0 { Some(v[i]) } else { None }).collect()),
             };
             let got = env.judge(rep, "extract_assemble", &class, &asm, &want, e_src, 1.0, &info);
+            // the method form of the re-assembly (LWECiphertext::assemble_lwe) is a public entry point of its own: same judgement
+            match lib(|| lwe.assemble_lwe()) {
+                Err(p) => env.viol(rep, "LWECiphertext::assemble_lwe", &class, "panic", format!("panicked: {}", p.0), &info),
+                Ok(asm2) => {
+                    rep.count("assemble_entry_points", "LWECiphertext::assemble_lwe");
+                    let _ = env.judge(rep, "extract_assemble(method)", &class, &asm2, &want, e_src, 1.0, &info);
+                    if asm2.data() != asm.data() || asm2.parms_id() != asm.parms_id() || asm2.is_ntt_form() != asm.is_ntt_form() || asm2.scale().to_bits() != asm.scale().to_bits() || asm2.correction_factor() != asm.correction_factor() {
+                        env.viol(rep, "LWECiphertext::assemble_lwe", &class, "forms_differ", "LWECiphertext::assemble_lwe and Evaluator::assemble_lwe return different ciphertexts for the same LWE ciphertext".into(), &info);
+                    }
+                }
+            }
             if sample_op == "extract" && !sampled_extract && i == n - 1 { if let Some(g) = got {
                 sampled_extract = true;
                 rep.sample(json!({"op": "extract_lwe+assemble_lwe", "params": spec.describe(), "level": level, "scale": scale, "plaintext_head": msg_head(&msgs[0], 16), "i": i, "representation": repr,
